@@ -11,7 +11,8 @@ LEVEL = 'exploration'
 BUDGET = {'quick': (50000, 80.0), 'thorough': (600000, 1500.0)}
 RULE = ('two real J1939-22 stacks; a generated sequence of 1..12 send_pgn calls with 1..60 bytes, PDU1/PDU2 PGNs, 1-3 destinations incl. global, '
         'time_limit in {0, 1..200 ms}, FEFF end to end and FBFF decoded on the bus by the reference codec only, issued from the application context or '
-        'from a timer callback at instants drawn over the job thread\'s sleep; every frame on the bus is decoded independently and matched against the '
+        'from a timer callback at instants drawn over the job thread\'s sleep (in some runs: from inside the stack\'s own transmission, while the job thread is parked at its k-th source line, '
+        'or with the application call itself parked at its k-th library source line; the application may refill the list it passed); every frame on the bus is decoded independently and matched against the '
         'submissions. non-trivial = at least one group was sent with a time limit (buffered); distinct = distinct scenario JSON')
 FAULT_COUNTERS = {'application thread parked at a source line inside send_pgn (pre-emption)': 'preempted_calls', 'send_pgn while the job thread is parked at a source line of its pass (pre-emption)': 'preempted_submissions', 'send_pgn from inside the stack\'s own transmission (submission while the job thread flushes)': 'nested_submissions', 'send_pgn issued from a timer callback (job-thread context)': 'timer_ctx_groups', 'buffer-full flushes': 'full_buffer_flushes'}
 REQUIRED_PROBES = ['groups', 'buffered_groups', 'combined_frames', 'fbff_groups', 'timer_ctx_groups', 'full_buffer_flushes', 'preempted_submissions', 'preempted_calls']
